@@ -395,14 +395,14 @@ def reexports(case: Any, kept: bool = False) -> List[Dict[str, Any]]:
     return out
 
 
-def binding_of(case: Any, fn: List[str], mi: int, name: str, depth: int = 0) -> Optional[Tuple[str, Any]]:
+def binding_of(case: Any, fn: List[str], mi: int, name: str, depth: int = 0, upto: Optional[int] = None) -> Optional[Tuple[str, Any]]:
     """What the LAST module-level binding of `name` in module mi denotes in Python:
     ('def', module index, name) | ('mod', module index) | ('ext', dotted) ; None when unbound.
     Also returns how it was bound: 'def' | 'from:<module index>' | 'star:<module index>' | 'import' | 'alias'."""
     idx = {n: i for i, n in enumerate(fn)}
     m = case['mods'][mi]
     res: Optional[Tuple[str, Any]] = None
-    for st in m['stmts']:
+    for st in (m['stmts'] if upto is None else m['stmts'][:upto]):     # upto: only the bindings before that statement
         k = st[0]
         if k in ('class', 'def', 'var') and st[1] == name:
             res = ('def', ('def', mi, name))
@@ -449,10 +449,11 @@ def denote_attr(case: Any, fn: List[str], mi: int, name: str, depth: int) -> Opt
     return None
 
 
-def denote(case: Any, fn: List[str], mi: int, dotted: str) -> Tuple[Optional[str], Optional[Any]]:
-    """(how the first component is bound in module mi, the entity the whole dotted name denotes)."""
+def denote(case: Any, fn: List[str], mi: int, dotted: str, upto: Optional[int] = None) -> Tuple[Optional[str], Optional[Any]]:
+    """(how the first component is bound in module mi, the entity the whole dotted name denotes).
+    upto = i: as seen by statement i of the module (a class statement evaluating its bases): only earlier bindings count."""
     parts = dotted.split('.')
-    b = binding_of(case, fn, mi, parts[0])
+    b = binding_of(case, fn, mi, parts[0], 0, upto)
     if b is None:
         # an absolute dotted name starting at a root module (docstring references by qualified name)
         if parts[0] in fn and case['mods'][fn.index(parts[0])]['parent'] is None:
@@ -466,6 +467,109 @@ def denote(case: Any, fn: List[str], mi: int, dotted: str) -> Tuple[Optional[str
             return how, None
         ent = denote_attr(case, fn, ent[1], p, 0)
     return how, ent
+
+
+def last_binding(case: Any, fn: List[str], mi: int, name: str, upto: Optional[int] = None) -> Optional[Tuple[str, Optional[int], str]]:
+    """the last module-level binding of `name` in module mi (before statement `upto`):
+    ('def', mi, name) | ('from', <index of the project module imported from or None>, original name) |
+    ('star', <module index>, name) | ('import', None, target) | ('alias', None, value)"""
+    idx = {n: i for i, n in enumerate(fn)}
+    stmts = case['mods'][mi]['stmts']
+    res = None
+    for st in (stmts if upto is None else stmts[:upto]):
+        k = st[0]
+        if k in ('class', 'def', 'var') and st[1] == name:
+            res = ('def', mi, name)
+        elif k == 'import' and (st[2] if st[2] else st[1].split('.')[0]) == name:
+            res = ('import', None, st[1])
+        elif k == 'from' and not (len(st) > 4 and st[4]):
+            t = abs_modname(case, fn, mi, st[1], st[2])
+            for o, a in st[3]:
+                if (a if a else o) == name:
+                    res = ('from', idx.get(t), o)
+        elif k == 'star':
+            t = abs_modname(case, fn, mi, st[1], st[2])
+            if t in idx:
+                dm = case['mods'][idx[t]]
+                alld = module_all(dm)
+                pub = alld if alld is not None else [x for x in bound_names(dm) if not x.startswith('_')]
+                if name in pub:
+                    res = ('star', idx[t], name)
+        elif k == 'alias' and st[1] == name:
+            res = ('alias', None, st[2])
+    return res
+
+
+def stale_chain(case: Any, fn: List[str], mi: int, name: str, r: Dict[str, Any], upto: Optional[int] = None,
+                depth: int = 0) -> Optional[Tuple[str, int]]:
+    """Does the binding of `name` in module mi go, possibly through other modules, through an import of r's object FROM ITS
+    DEFINING MODULE under its old name (`from D import x`: the alias is the literal 'D.x', dead after the move; or
+    `from D import *`: dead when the star import ran before the move)?  Returns ('from' | 'star', the module holding that
+    import).  The re-exporting import itself does not count (it moves the object, it does not leave an alias)."""
+    if depth > 8:
+        return None
+    b = last_binding(case, fn, mi, name, upto)
+    if b is None:
+        return None
+    if mi == r['R'] and name == r['n'] and b[0] in ('from', 'star') and b[1] == r['D']:
+        return None
+    if b[0] in ('from', 'star'):
+        if b[1] == r['D'] and b[2] == r['x']:
+            return b[0], mi
+        if b[1] is not None:
+            return stale_chain(case, fn, b[1], b[2], r, None, depth + 1)
+    return None
+
+
+def via_of(case: Any, fn: List[str], mi: int, dotted: str, r: Dict[str, Any],
+           upto: Optional[int] = None) -> Tuple[Optional[str], Optional[str], Optional[int]]:
+    """Does `dotted`, written in module mi (as seen by its statement `upto`), denote (in Python) the object re-exported by
+    r or one of its members?  Returns (via, expected full name, the module whose import of the defining module matters):
+    via in from-D star-D from-R star-R attr-D attr-R local other, or chain-from-D / chain-star-D when the name reaches the
+    object through some module's `from D import x` / `from D import *` (e.g. R's own second import of it under the old
+    name, looked at through R)."""
+    new = fn[r['R']] + '.' + r['n']
+    parts = dotted.split('.')
+    ddef = defs_of(case['mods'][r['D']])[r['x']]
+    members = [m[1] for m in ddef[4]] if ddef[0] == 'class' else []
+    for cut in (len(parts), len(parts) - 1):
+        if cut < 1:
+            continue
+        how, ent = denote(case, fn, mi, '.'.join(parts[:cut]), upto)
+        if ent != ('def', r['D'], r['x']):
+            continue
+        suffix = parts[cut:]
+        if suffix and (suffix[0] not in members or members.count(suffix[0]) != 1):
+            return None, None, None
+        expected = '.'.join([new] + suffix)
+        holder: Optional[int] = mi
+        if cut == 1:
+            if how == 'def':
+                via = 'local'
+            elif how in ('from:%d' % r['D'], 'star:%d' % r['D']):
+                via = how.split(':')[0] + '-D'
+            elif how in ('from:%d' % r['R'], 'star:%d' % r['R']):
+                via = how.split(':')[0] + '-R'
+            else:
+                via = 'other'
+            if via in ('from-R', 'star-R', 'other'):
+                ch = stale_chain(case, fn, mi, parts[0], r, upto)
+                if ch is not None:
+                    via, holder = 'chain-%s-D' % ch[0], ch[1]
+        else:
+            _, cont = denote(case, fn, mi, '.'.join(parts[:cut - 1]), upto)
+            if cont == ('mod', r['D']):
+                via = 'attr-D'
+            elif cont == ('mod', r['R']):
+                via = 'attr-R'
+            else:
+                via = 'other'
+            if cont is not None and cont[0] == 'mod' and cont[1] != r['D']:
+                ch = stale_chain(case, fn, cont[1], parts[cut - 1], r)
+                if ch is not None:
+                    via, holder = 'chain-%s-D' % ch[0], ch[1]
+        return via, expected, holder
+    return None, None, None
 
 
 def module_of_scope(fn: List[str], scope: str) -> Optional[int]:
@@ -508,6 +612,20 @@ def corpus() -> List[Tuple[str, Any]]:
         out.append(('submodule-reexport-sibling-' + fac, {'mods': sub_pkg + [
             M(fac, [frm('', 'core', level=1), ['all', ['core']]], parent=0, doc='Facade.')],
             'queries': [['pkg.' + fac, 'core.Impl']]}))
+    # the stale old name seen THROUGH the re-exporter: R imports the object twice, once under the exported new name (the move)
+    # and once under its old name (alias = the dead literal 'D.K4'); a third module writes R.K4
+    out.append(('reexport-renamed-old-name-kept-in-R', {'mods': [
+        M('m3', [cls('K4', members=[[0, 'a4_0', 'doc a4_0']])]),
+        M('m4', [frm('m3', 'K4'), frm('m3', ['K4', 'K4_pub']), cls('K5', ['K4']), ['all', ['K4_pub', 'K5']]], doc='doc of module 4'),
+        M('user', [['import', 'm4', None], cls('U', ['m4.K4_pub']), cls('V', ['m4.K4'])])],
+        'queries': [['user', 'm4.K4'], ['user', 'm4.K4_pub'], ['m4', 'K4'], ['m4', 'K4_pub']]}))
+    # a star-import consumer analysed ON DEMAND from inside the re-exporter, before the re-exporting import runs: its star
+    # import copies the pre-move name although the re-exporter was started first
+    out.append(('star-consumer-on-demand-before-reexport', {'mods': [
+        M('m0', [cls('K1'), cls('K2', ['K1'])], doc='doc of module 0'),
+        M('m1', [frm('m3', 'K9'), frm('m0', ['K2', 'K2_pub']), ['all', ['K2_pub']]]),
+        M('m3', [['star', 0, 'm0'], cls('K7', ['K2']), cls('K9')], doc='doc of module 3')],
+        'queries': [['m3', 'K2'], ['m3.K7', 'K2']]}))
     # an import cycle in which a class is visited while the module of its base is still being processed (base resolved by the
     # second pass of compute_mro, in the scope of the class's PARENT) and the class has a member named like the base
     out.append(('cycle-base-named-like-member', {'mods': [
